@@ -4,6 +4,10 @@ package main
 // is parsed by text/template/parse and interpreted symbolically (C20).
 
 import (
+	"go/token"
+	"go/types"
+	"text/template/parse"
+
 	"golang.org/x/tools/go/ssa"
 )
 
@@ -36,5 +40,352 @@ func init() {
 			e.fail("panic", "panic:explicit", e.siteOf(fr), "template.Must", "")
 		}
 		return a[0]
+	}
+}
+
+// ---- interpreter over the real text/template/parse tree
+
+type tval struct {
+	v Value
+	t types.Type
+}
+
+type tmplState struct {
+	e    *Exec
+	fr   *Frame
+	tpl  *tmplObj
+	vars []map[string]tval
+	out  []*Term
+}
+
+func (s *tmplState) emit(t *Term) { s.out = append(s.out, t) }
+
+func (s *tmplState) lookupVar(name string) tval {
+	for i := len(s.vars) - 1; i >= 0; i-- {
+		if v, ok := s.vars[i][name]; ok {
+			return v
+		}
+	}
+	s.e.unsupported("template: undefined variable %s", name)
+	return tval{}
+}
+
+// field resolves .Name on a value: struct field, or niladic method.
+func (s *tmplState) field(x tval, name string) tval {
+	e := s.e
+	t := x.t
+	v := x.v
+	// auto-dereference pointers
+	for {
+		pt, ok := t.Underlying().(*types.Pointer)
+		if !ok {
+			break
+		}
+		// methods on the pointer type first
+		if fn := e.P.Prog.LookupMethod(t, nil, name); fn != nil && token.IsExported(name) {
+			r := e.callAt(fn, []Value{v}, nil, s.fr, nil)
+			return tval{r, fn.Signature.Results().At(0).Type()}
+		}
+		p := v.(Ptr)
+		if p.Obj == nil {
+			e.unsupported("template: nil pointer evaluating .%s", name)
+		}
+		if p.NilCond != nil && e.decide(p.NilCond) {
+			e.unsupported("template: nil pointer evaluating .%s", name)
+		}
+		v = e.load(Ptr{Obj: p.Obj, Path: p.Path})
+		t = pt.Elem()
+	}
+	if st, ok := t.Underlying().(*types.Struct); ok && !isTimeType(t) {
+		for i := 0; i < st.NumFields(); i++ {
+			if st.Field(i).Name() == name {
+				return tval{v.(StructV).F[i], st.Field(i).Type()}
+			}
+		}
+	}
+	if fn := e.P.Prog.LookupMethod(t, nil, name); fn != nil {
+		if fn.Signature.Params().Len() != 0 || fn.Signature.Results().Len() < 1 {
+			e.unsupported("template: method %s with arguments", name)
+		}
+		r := e.callAt(fn, []Value{v}, nil, s.fr, nil)
+		return tval{r, fn.Signature.Results().At(0).Type()}
+	}
+	e.unsupported("template: can't evaluate field %s in type %s", name, t)
+	return tval{}
+}
+
+func (s *tmplState) evalArg(dot tval, n parse.Node) tval {
+	switch a := n.(type) {
+	case *parse.DotNode:
+		return dot
+	case *parse.FieldNode:
+		x := dot
+		for _, id := range a.Ident {
+			x = s.field(x, id)
+		}
+		return x
+	case *parse.VariableNode:
+		x := s.lookupVar(a.Ident[0])
+		for _, id := range a.Ident[1:] {
+			x = s.field(x, id)
+		}
+		return x
+	case *parse.StringNode:
+		return tval{chStr(s.e.tf, a.Text), types.Typ[types.String]}
+	case *parse.PipeNode:
+		return s.evalPipe(dot, a)
+	}
+	s.e.unsupported("template: argument node %T", n)
+	return tval{}
+}
+
+func (s *tmplState) evalCommand(dot tval, c *parse.CommandNode) tval {
+	e := s.e
+	if id, ok := c.Args[0].(*parse.IdentifierNode); ok {
+		var fv Value
+		if s.tpl.funcs != nil {
+			for i, k := range s.tpl.funcs.Keys {
+				if ks, ok := k.(StrV).Const(); ok && ks == id.Ident {
+					fv = s.tpl.funcs.Vals[i]
+				}
+			}
+		}
+		iv, ok := fv.(IfaceV)
+		if !ok || iv.T == nil {
+			e.unsupported("template: function %q not defined", id.Ident)
+		}
+		f := iv.V.(FuncV)
+		sig := iv.T.Underlying().(*types.Signature)
+		var args []Value
+		for _, an := range c.Args[1:] {
+			args = append(args, s.evalArg(dot, an).v)
+		}
+		if len(args) != sig.Params().Len() {
+			e.unsupported("template: wrong number of args for %s", id.Ident)
+		}
+		r := e.callFuncV(s.fr, nil, f, args)
+		return tval{r, sig.Results().At(0).Type()}
+	}
+	if len(c.Args) != 1 {
+		e.unsupported("template: command with arguments on a non-function")
+	}
+	return s.evalArg(dot, c.Args[0])
+}
+
+func (s *tmplState) evalPipe(dot tval, p *parse.PipeNode) tval {
+	if len(p.Cmds) != 1 {
+		s.e.unsupported("template: pipelines with several commands")
+	}
+	return s.evalCommand(dot, p.Cmds[0])
+}
+
+// printValue renders a value the way fmt.Fprint does for the kinds the templates print.
+func (s *tmplState) printValue(x tval) *Term {
+	e := s.e
+	switch v := x.v.(type) {
+	case StrV:
+		return v.Term(e.tf)
+	case *Term:
+		if v.Sort == SInt {
+			if n, ok := x.t.(*types.Named); ok && n.NumMethods() > 0 {
+				for i := 0; i < n.NumMethods(); i++ {
+					if n.Method(i).Name() == "String" {
+						fn := e.P.Prog.LookupMethod(x.t, nil, "String")
+						r := e.callAt(fn, []Value{v}, nil, s.fr, nil)
+						return r.(StrV).Term(e.tf)
+					}
+				}
+			}
+			return e.tf.DecInt(v)
+		}
+		if v.Sort == SBool {
+			return e.tf.Ite(v, e.tf.Str("true"), e.tf.Str("false"))
+		}
+	}
+	e.unsupported("template: printing a value of type %s", x.t)
+	return nil
+}
+
+func (s *tmplState) walk(dot tval, n parse.Node) {
+	e := s.e
+	switch x := n.(type) {
+	case *parse.ListNode:
+		if x == nil {
+			return
+		}
+		for _, c := range x.Nodes {
+			s.walk(dot, c)
+		}
+	case *parse.TextNode:
+		s.emit(e.tf.Str(string(x.Text)))
+	case *parse.ActionNode:
+		v := s.evalPipe(dot, x.Pipe)
+		if len(x.Pipe.Decl) > 0 {
+			s.vars[len(s.vars)-1][x.Pipe.Decl[0].Ident[0]] = v
+			return
+		}
+		s.emit(s.printValue(v))
+	case *parse.RangeNode:
+		v := s.evalPipe(dot, x.Pipe)
+		sl, ok := v.v.(SliceV)
+		if !ok {
+			e.unsupported("template: range over %T", v.v)
+		}
+		et := v.t.Underlying().(*types.Slice).Elem()
+		if sl.Len == 0 {
+			s.walk(dot, x.ElseList)
+			return
+		}
+		for i := 0; i < sl.Len; i++ {
+			el := tval{getPath(sl.Arr.V, []int{sl.Off + i}), et}
+			s.vars = append(s.vars, map[string]tval{})
+			switch len(x.Pipe.Decl) {
+			case 1:
+				s.vars[len(s.vars)-1][x.Pipe.Decl[0].Ident[0]] = el
+			case 2:
+				s.vars[len(s.vars)-1][x.Pipe.Decl[0].Ident[0]] = tval{e.tf.Int(int64(i)), types.Typ[types.Int]}
+				s.vars[len(s.vars)-1][x.Pipe.Decl[1].Ident[0]] = el
+			}
+			s.walk(el, x.List)
+			s.vars = s.vars[:len(s.vars)-1]
+		}
+	case *parse.IfNode:
+		v := s.evalPipe(dot, x.Pipe)
+		truth := false
+		switch c := v.v.(type) {
+		case *Term:
+			if c.Sort == SBool {
+				truth = e.decide(c)
+			} else {
+				truth = e.decide(e.tf.Not(e.tf.Eq(c, e.tf.Int(0))))
+			}
+		case Ptr:
+			truth = !e.decide(nilCondOf(e.tf, c))
+		case StrV:
+			truth = e.decide(e.tf.Not(e.tf.Eq(c.Len(e.tf), e.tf.Int(0))))
+		default:
+			e.unsupported("template: truth of %T", v.v)
+		}
+		if truth {
+			s.walk(dot, x.List)
+		} else {
+			s.walk(dot, x.ElseList)
+		}
+	default:
+		e.unsupported("template: node %T", n)
+	}
+}
+
+func init() {
+	stubs["(*text/template.Template).Execute"] = func(e *Exec, fr *Frame, fn *ssa.Function, a []Value) Value {
+		tp := a[0].(Ptr)
+		if e.curFoot != nil {
+			e.curFoot.read(tp)
+		}
+		tpl := tp.Obj.Aux.(*tmplObj)
+		text, ok := tpl.text.Const()
+		if !ok {
+			e.unsupported("template with symbolic text")
+		}
+		funcs := map[string]interface{}{}
+		if tpl.funcs != nil {
+			for _, k := range tpl.funcs.Keys {
+				if ks, ok := k.(StrV).Const(); ok {
+					funcs[ks] = func() {}
+				}
+			}
+		}
+		trees, err := parse.Parse(tpl.name, text, "", "", funcs)
+		if err != nil {
+			return e.newError("template: " + err.Error())
+		}
+		tree := trees[tpl.name]
+		if tree == nil {
+			e.unsupported("template %s has no tree", tpl.name)
+		}
+		data := a[2].(IfaceV)
+		st := &tmplState{e: e, fr: fr, tpl: tpl, vars: []map[string]tval{{"$": {data.V, data.T}}}}
+		st.walk(tval{data.V, data.T}, tree.Root)
+		// write to the destination buffer
+		w := a[1].(IfaceV)
+		bp, ok := w.V.(Ptr)
+		if !ok || typeKey(w.T) != "*bytes.Buffer" {
+			e.unsupported("template.Execute into %s", typeKey(w.T))
+		}
+		e.writes++
+		e.pathAux[e.bufKey(bp)] = append(append([]chunk{}, e.bufGet(bp)...), chunk{t: e.tf.Concat(st.out...)})
+		return IfaceV{}
+	}
+	// SplitCSV splits rendered CSV text at its literal newlines and commas; symbolic
+	// segments are atomic (assumed free of CSV metacharacters, or decimal integers).
+	intrinsics["SplitCSV"] = func(e *Exec, fr *Frame, fn *ssa.Function, a []Value) Value {
+		var text *Term
+		switch x := a[0].(type) {
+		case chunksV:
+			var ts []*Term
+			for _, c := range x.cs {
+				if c.num {
+					e.unsupported("SplitCSV over binary chunks")
+				}
+				ts = append(ts, c.t)
+			}
+			text = e.tf.Concat(ts...)
+		case StrV:
+			text = x.Term(e.tf)
+		default:
+			e.unsupported("SplitCSV of %T", a[0])
+		}
+		segs := []*Term{text}
+		if text.Op == "concat" {
+			segs = text.Args
+		}
+		var rows []Value
+		var row []Value
+		var cell []*Term
+		endCell := func() {
+			row = append(row, StrV{T: e.tf.Concat(cell...)})
+			cell = nil
+		}
+		endRow := func() {
+			endCell()
+			if len(row) == 1 {
+				if c, ok := row[0].(StrV).Const(); ok && c == "" {
+					row = nil // encoding/csv skips empty lines
+					return
+				}
+			}
+			rows = append(rows, e.newSlice(row, nil))
+			row = nil
+		}
+		for _, sg := range segs {
+			if sg.Op != "sconst" {
+				cell = append(cell, sg)
+				continue
+			}
+			cur := ""
+			for i := 0; i < len(sg.S); i++ {
+				switch sg.S[i] {
+				case ',':
+					cell = append(cell, e.tf.Str(cur))
+					cur = ""
+					endCell()
+				case '\n':
+					cell = append(cell, e.tf.Str(cur))
+					cur = ""
+					endRow()
+				case '"', '\r':
+					e.unsupported("SplitCSV: quoting in rendered output")
+				default:
+					cur += string(sg.S[i])
+				}
+			}
+			if cur != "" {
+				cell = append(cell, e.tf.Str(cur))
+			}
+		}
+		if len(cell) > 0 || len(row) > 0 {
+			endRow()
+		}
+		return e.newSlice(rows, nil)
 	}
 }
